@@ -349,6 +349,26 @@ def iterAllLoop (t : Table) : Nat → Iter → Mem → List Entry × Mem
 def iterAll (t : Table) (mem : Mem) : List Entry × Mem :=
   iterAllLoop t (t.root.nodes + 1) (iterInit t) mem
 
+/-! ### histories -/
+
+open Spec.StrMap (Op Out) in
+/-- one operation of a history; `add` installs its allocator schedule first -/
+def Table.step (cmp : Cmp) (t : Table) (op : Op) (mem : Mem) : Out × Table × Mem :=
+  match op with
+  | .add k v sched => let r := t.add cmp k v (mem.begin sched); ({ st := some r.1 }, r.2.1, r.2.2)
+  | .get k => let r := t.get cmp k; ({ st := some r.1, val := r.2 }, t, mem)
+  | .contains k => ({ val := some (if t.containsKey cmp k then 1 else 0) }, t, mem)
+  | .remove k => let r := t.remove cmp k mem; ({ st := some r.1, val := r.2.1 }, r.2.2.1, r.2.2.2)
+  | .removeAll => let r := t.removeAll mem; ({}, r.1, r.2)
+  | .size => ({ val := some t.size }, t, mem)
+  | .enumerate => let r := iterAll t mem; ({ enum := r.1 }, t, r.2)
+
+open Spec.StrMap (Op Out) in
+def Table.run (cmp : Cmp) (t : Table) (ops : List Op) (mem : Mem) : List Out × Table × Mem :=
+  match ops with
+  | [] => ([], t, mem)
+  | op :: ops => let s := t.step cmp op mem; let rs := Table.run cmp s.2.1 ops s.2.2; (s.1 :: rs.1, rs.2.1, rs.2.2)
+
 /-! ### abstraction and invariant -/
 
 /-- the entries in first-arrival pre-order `self, left, mid, right`, each with the key its path
